@@ -68,7 +68,11 @@ N_THREADS = int(os.environ.get("VF_THREADS", "0") or 0)
 PREV = {}
 
 
+CASE_NO = [0]
+
+
 def process(c):
+    CASE_NO[0] += 1
     rep = {}
     try:
         if c["kind"] in ("model", "invariant", "spec_example"):
@@ -102,10 +106,11 @@ def process(c):
                         eq["previous_of_class"] = bool(obj == prev[1])
                         eq["ne_previous_of_class"] = bool(obj != prev[1])
                         rep["eq_prev_keys"] = sorted(prev[0]) if isinstance(prev[0], dict) else []
+                        rep["eq_prev_case"] = prev[2]
                     rep["eq"] = eq
                 except Exception as e:  # noqa
                     rep["eq"] = {"err": type(e).__name__}
-                PREV[c["cls"]] = (c["wire"], obj)
+                PREV[c["cls"]] = (c["wire"], obj, CASE_NO[0])
         elif c["kind"] == "envelope":
             from chuk_mcp.protocol.messages import json_rpc_message as J
             m = J.parse_message(c["wire"])
